@@ -1,0 +1,105 @@
+package decoder
+
+import (
+	"fmt"
+	"strconv"
+	"unsafe"
+
+	"github.com/goccy/go-json/internal/errors"
+	"github.com/goccy/go-json/internal/runtime"
+)
+
+// mapKeyIntDecoder decodes an object key into an integer map key the way
+// encoding/json does: the text of the key is parsed by strconv.ParseInt or
+// strconv.ParseUint in base 10 ( "+1" and "01" are keys, " 1", "1.0", "" and
+// "null" are not ) and must be in the range of the key type.
+type mapKeyIntDecoder struct {
+	typ           *runtime.Type
+	bitSize       int
+	intOp         func(unsafe.Pointer, int64)
+	uintOp        func(unsafe.Pointer, uint64)
+	stringDecoder *stringDecoder
+	structName    string
+	fieldName     string
+}
+
+func newMapKeyIntDecoder(typ *runtime.Type, dec Decoder, structName, fieldName string) *mapKeyIntDecoder {
+	d := &mapKeyIntDecoder{
+		typ:           typ,
+		bitSize:       runtime.RType2Type(typ).Bits(),
+		stringDecoder: newStringDecoder(structName, fieldName),
+		structName:    structName,
+		fieldName:     fieldName,
+	}
+	switch t := dec.(type) {
+	case *intDecoder:
+		d.intOp = t.op
+	case *uintDecoder:
+		d.uintOp = t.op
+	}
+	return d
+}
+
+func (d *mapKeyIntDecoder) store(key []byte, p unsafe.Pointer, offset int64) error {
+	s := string(key)
+	if d.intOp != nil {
+		n, err := strconv.ParseInt(s, 10, d.bitSize)
+		if err != nil {
+			return d.typeError(s, offset)
+		}
+		d.intOp(p, n)
+		return nil
+	}
+	n, err := strconv.ParseUint(s, 10, d.bitSize)
+	if err != nil {
+		return d.typeError(s, offset)
+	}
+	d.uintOp(p, n)
+	return nil
+}
+
+func (d *mapKeyIntDecoder) typeError(key string, offset int64) *errors.UnmarshalTypeError {
+	if len(key) > 0 {
+		// a key that cannot even begin a number of this kind is named by that character
+		c := key[0]
+		if !('0' <= c && c <= '9') && c != '+' && !(c == '-' && d.intOp != nil) {
+			key = key[:1]
+		}
+	}
+	return &errors.UnmarshalTypeError{
+		Value:  "number " + key,
+		Type:   runtime.RType2Type(d.typ),
+		Struct: d.structName,
+		Field:  d.fieldName,
+		Offset: offset,
+	}
+}
+
+func (d *mapKeyIntDecoder) DecodeStream(s *Stream, depth int64, p unsafe.Pointer) error {
+	bytes, err := d.stringDecoder.decodeStreamByte(s)
+	if err != nil {
+		return err
+	}
+	if bytes == nil {
+		return errors.ErrExpected("string for object key", s.totalOffset())
+	}
+	return d.store(bytes, p, s.totalOffset())
+}
+
+func (d *mapKeyIntDecoder) Decode(ctx *RuntimeContext, cursor, depth int64, p unsafe.Pointer) (int64, error) {
+	bytes, c, err := d.stringDecoder.decodeByte(ctx.Buf, cursor)
+	if err != nil {
+		return 0, err
+	}
+	if bytes == nil {
+		return 0, errors.ErrExpected("string for object key", cursor)
+	}
+	if err := d.store(bytes, p, c); err != nil {
+		return 0, err
+	}
+	return c, nil
+}
+
+func (d *mapKeyIntDecoder) DecodePath(ctx *RuntimeContext, cursor, depth int64) ([][]byte, int64, error) {
+	return nil, 0, fmt.Errorf("json: map key decoder does not support decode path")
+}
